@@ -116,6 +116,7 @@ func families(thorough bool) []family {
 			{Name: "small-len2-empty", Alphabet: "small", MinLen: 2, MaxLen: 2, Batch: "split3", OnlyPre: "empty"},
 			{Name: "onekey-len4", Alphabet: "onekey", MinLen: 4, MaxLen: 4, Batch: "finest", OnlyPre: "five", OnlySlot: 2},
 			{Name: "small-len3", Alphabet: "small", MinLen: 3, MaxLen: 3, Batch: "one+finest", OnlyPre: "five", OnlySlot: 2},
+			{Name: "rewrite-len5", Alphabet: "rewrite", MinLen: 5, MaxLen: 5, Batch: "one+2rest", OnlyPre: "empty", OnlySlot: 4},
 		}
 	}
 	return []family{
@@ -126,6 +127,8 @@ func families(thorough bool) []family {
 		{Name: "full-len2", Alphabet: "full", MinLen: 2, MaxLen: 2, Batch: "all", Fresh: true},
 		{Name: "small-len3-empty", Alphabet: "small", MinLen: 3, MaxLen: 3, Batch: "one+finest", OnlyPre: "empty"},
 		{Name: "small-len4", Alphabet: "small", MinLen: 4, MaxLen: 4, Batch: "finest", OnlyPre: "five", OnlySlot: 2},
+		{Name: "rewrite-len5", Alphabet: "rewrite", MinLen: 5, MaxLen: 5, Batch: "one+2rest"},
+		{Name: "rewrite-len6", Alphabet: "rewrite", MinLen: 6, MaxLen: 6, Batch: "one+2rest", OnlyPre: "empty", OnlySlot: 4},
 	}
 }
 
@@ -140,6 +143,11 @@ func alphabet(name string) []sym {
 	if name == "onekey" {
 		// one key (index 0: the item held in an inner node of the pre-state), every op kind.
 		return []sym{{"add", 0, "S"}, {"upsert", 0, "B"}, {"update", 0, "S"}, {"update", 0, "E"}, {"remove", 0, ""}, {"get", 0, ""}}
+	}
+	if name == "rewrite" {
+		// a key written more than once and read around writes of a neighbour: write/read symbols on key 0,
+		// a read of key 1 and a write of key 2 (cursor moves and node re-saves between the reads)
+		return []sym{{"add", 0, "S"}, {"upsert", 0, "S"}, {"update", 0, "S"}, {"get", 0, ""}, {"get", 1, ""}, {"add", 2, "S"}}
 	}
 	vcs := []string{"S", "B", "E"}
 	if name == "small" {
@@ -228,6 +236,14 @@ func batchings(n int, mode string) []batching {
 			return []batching{all[0], all[2]}
 		}
 		return all
+	}
+	if mode == "one+2rest" {
+		// the single transaction, and the first two operations in one transaction followed by the rest in another
+		out = append(out, batching{[]int{n}, -1})
+		if n > 2 {
+			out = append(out, batching{[]int{2, n - 2}, -1})
+		}
+		return out
 	}
 	if mode == "split3" {
 		out = append(out, batching{[]int{n}, -1})
